@@ -21,9 +21,11 @@ def emit_nocopy(kind, ir, opts=None):
     if kind in ("rest", "numpydoc", "google"):
         return E.docstring(ir, docstring_format=kind, word_wrap=o.get("word_wrap", False), emit_default_doc=o.get("emit_default_doc", True))
     if kind == "class":
-        return E.class_(ir, class_name=o.get("name", "ConfigClass"), emit_default_doc=o.get("emit_default_doc", True), word_wrap=o.get("word_wrap", False))
+        return E.class_(ir, class_name=o.get("name", "ConfigClass"), emit_default_doc=o.get("emit_default_doc", True), word_wrap=o.get("word_wrap", False),
+                        **({"emit_call": bool(o["emit_call"])} if "emit_call" in o else {}))  # fmt: skip
     if kind == "argparse":
-        return E.argparse_function(ir, function_name=o.get("name", "set_cli_args"), emit_default_doc=o.get("emit_default_doc", True), word_wrap=o.get("word_wrap", False))
+        return E.argparse_function(ir, function_name=o.get("name", "set_cli_args"), emit_default_doc=o.get("emit_default_doc", True), word_wrap=o.get("word_wrap", False),
+                                   **{k: o[k] for k in ("wrap_description", "docstring_format") if k in o})  # fmt: skip
     ftype = o.get("function_type", "self" if kind == "method" else "static")
     return E.function(
         ir,
